@@ -561,3 +561,54 @@ func affOfC(aff *affEnv, c cval, d int) lin {
 	}
 	return aff.Of(c.v)
 }
+
+// memberPath: c reads a member (of a member …) of a struct value: the struct value it comes from,
+// resolved as far as the walk can go (parameters bound by the calls entered, spilled copies), and the
+// member indices from there.  For values whose construction cannot be entered (the result of a function
+// with several success returns) this still says WHICH member of WHICH value is read.
+func memberPath(c cval) (cval, []int, bool) {
+	var path []int
+	for d := 0; d < 12; d++ {
+		c = unfold(c)
+		v := stripNum(c.v)
+		switch x := v.(type) {
+		case *ssa.Field:
+			path = append([]int{x.Field}, path...)
+			c = c.with(x.X)
+			continue
+		case *ssa.UnOp:
+			if fa, ok := x.X.(*ssa.FieldAddr); ok && x.Op == token.MUL {
+				path = append([]int{fa.Field}, path...)
+				// the struct behind the address: a local cell holding a copy of a value
+				if al, isAl := fa.X.(*ssa.Alloc); isAl {
+					if w := cellValue(al); w != nil {
+						c = c.with(w)
+						continue
+					}
+					if p := rootParam(cval{v: al}); p != nil {
+						c = c.with(p)
+						continue
+					}
+					// written once as a whole, read member-wise afterwards
+					var whole ssa.Value
+					n := 0
+					for _, ref := range *al.Referrers() {
+						if st, isSt := ref.(*ssa.Store); isSt && st.Addr == ssa.Value(al) {
+							n++
+							whole = st.Val
+						}
+					}
+					if n == 1 {
+						c = c.with(whole)
+						continue
+					}
+				}
+				c = c.with(fa.X)
+				return c, path, len(path) > 0
+			}
+		}
+		c.v = v
+		return c, path, len(path) > 0
+	}
+	return c, path, false
+}
